@@ -11,6 +11,11 @@ from pyhms.core.problem import (EvalCountingProblem, EvalCutoffProblem, Function
                                 StatsGatheringProblem, get_function_problem)
 
 OPT, EPS = 1.0, 0.25
+# a shifted benchmark with a fine target precision (|optimum| / precision > 1e9: relative tolerances must not creep in);
+# all values exactly representable
+OPT2, EPS2 = -1024.0, 2.0 ** -27
+VALUES2 = {"opt": [-1024.0], "edge": [-1024.0 + 2.0 ** -27, -1024.0 - 2.0 ** -27],
+           "out": [-1024.0 + 2.0 ** -26, -1024.0 - 3 * 2.0 ** -27, "W", 5.0, -1024.0 + 2.0 ** -20, "B"]}
 # "W" / "B": the infinity that is the worst / the best value for the direction - an objective may return them itself
 # (death penalty for infeasible points); a wrapper must treat them like any other value
 VALUES = {"opt": [1.0], "edge": [1.25, 0.75], "out": [1.5, -3.0, "W", 1.2500000000000002, "B"]}
@@ -28,7 +33,7 @@ class Base:
         return self.values[self.calls - 1]
 
 
-def build(stack, maximize):
+def build(stack, maximize, opt=OPT, eps=EPS):
     base = Base()
     fp = FunctionProblem(base, bounds=BOUNDS, maximize=maximize)
     p = fp
@@ -39,7 +44,7 @@ def build(stack, maximize):
         elif k == "stats":
             p = StatsGatheringProblem(p)
         elif k == "precision":
-            p = PrecisionCutoffProblem(p, OPT, EPS)
+            p = PrecisionCutoffProblem(p, opt, eps)
         else:
             p = EvalCutoffProblem(p, int(k[3:]))
         layers.append(p)
@@ -56,14 +61,15 @@ def main(table_path, out_path):
                 continue
             c = json.loads(line)
             distinct += 1
-            for maximize in (False, True):
-                base, fp, top, layers = build(c["stack"], maximize)
+            for maximize, conc in ((False, 1), (True, 1)) + (((False, 2), (True, 2)) if "precision" in c["stack"] else ()):
+                VAL = VALUES if conc == 1 else VALUES2
+                base, fp, top, layers = build(c["stack"], maximize, *((OPT, EPS) if conc == 1 else (OPT2, EPS2)))
                 worst = -math.inf if maximize else math.inf
                 # concrete values for the classes (vary the representative with the position)
-                vals = [VALUES[cls][(li + j) % len(VALUES[cls])] for j, cls in enumerate(c["calls"])]
+                vals = [VAL[cls][(li + j) % len(VAL[cls])] for j, cls in enumerate(c["calls"])]
                 vals = [worst if v == "W" else -worst if v == "B" else v for v in vals]
                 base.values = list(vals) + [0.0] * 8
-                sig0 = f"stack={'/'.join(c['stack'])} maximize={maximize} calls={','.join(c['calls'])}"
+                sig0 = f"stack={'/'.join(c['stack'])} maximize={maximize} calls={','.join(c['calls'])}" + (" optimum=-1024 precision=2^-27" if conc == 2 else "")
                 # static transparency
                 if not (np.array_equal(top.bounds, BOUNDS) and top.maximize == maximize
                         and get_function_problem(top) is fp):
